@@ -139,6 +139,8 @@ def report(prop, tier, seed, results, registry, known, expected, head, dirty, wa
         "trusted_base": GLOBAL_ASSUMPTIONS + ["shim/uninterpreted: " + a for a in assumed],
         "functions_under_contract": functions,
         "paths_explored": sum(r["paths"] for r in results),
+        "concrete_crosscheck_cases_on_real_code": sum((r.get("cases") or 0) for r in deductive),
+        "traces_validated_against_impl": sum((r.get("cases") or 0) for r in deductive),
         "proof_goals": sum(len(r["goals"]) for r in results),
         "goals_by_backend": backends,
         "solver_seconds": round(sum(r["solver_seconds"] for r in results), 3),
